@@ -732,6 +732,8 @@ pub mod verif {
         pub sum_roots: usize,
         pub by_type: Vec<(String, usize, usize)>,
         pub collections: usize,
+        /// Independent recount: the payload sizes of the objects that are on the heap now.
+        pub payload_bytes: usize,
     }
 
     pub fn stats() -> Stats {
@@ -739,7 +741,9 @@ pub mod verif {
             let heap = heap.borrow();
             let mut by_type: StdHashMap<&'static str, (usize, usize)> = StdHashMap::new();
             let mut sum_roots = 0;
+            let mut payload_bytes = 0;
             for obj in heap.objects.iter() {
+                payload_bytes += mem::size_of_val(&obj.data);
                 let addr = obj.as_ref().get_ref() as *const _ as *const () as usize;
                 let name = type_of(addr).unwrap_or("?");
                 let e = by_type.entry(name).or_insert((0, 0));
@@ -759,6 +763,7 @@ pub mod verif {
                 sum_roots,
                 by_type,
                 collections: collections(),
+                payload_bytes,
             }
         })
     }
